@@ -108,3 +108,42 @@ def capped_replay(rep, binary, args, behaviours, *, shards=8, timeout=900, label
     if missing:
         rep.infra_error("%s: %d behaviours produced no result" % (label, len(missing)))
     return failures
+
+
+def capped_validate_all(rep, comp, module, cfg, histories, *, label, shards=6, timeout=900, key_fn=None, cap=3):
+    """vlib.trace.validate_all, but at most `cap` rejected histories are isolated and reported; once the cap is
+    reached the remaining histories of a rejected shard are left unvalidated (and not counted)."""
+    from vlib import trace
+    if not histories:
+        rep.infra_error(label + ": no histories recorded")
+        return
+    shards = max(1, min(shards, len(histories)))
+    parts = [histories[i::shards] for i in range(shards)]
+    with cf.ThreadPoolExecutor(max_workers=shards) as ex:
+        results = list(ex.map(lambda p: trace.validate(comp, module, cfg, p, timeout), parts))
+    reported = 0
+    work = list(zip(parts, results))
+    while work:
+        part, (acc, r, info) = work.pop(0)
+        rep.add_tlc("%s/%s" % (module, cfg), r, "trace validation of %d histories" % len(part))
+        if acc is None:
+            rep.infra_error("%s: trace validation did not complete: %s" % (label, str(info)[:600]))
+        elif acc:
+            rep.add_cases(part, nontrivial=lambda h: len(h) > 6)
+        else:
+            if reported >= cap:
+                rep.cov["rejected_shards_not_bisected"] = rep.cov.get("rejected_shards_not_bisected", 0) + 1
+                continue
+            hi, ei = trace.locate(part, info["at"])
+            bad = part[hi]
+            acc2, r2, info2 = trace.validate(comp, module, cfg, [bad], timeout)
+            if acc2 is False:
+                reported += 1
+                key = key_fn(bad, info2) if key_fn else label + "/history-rejected"
+                rep.violation(key, "history not explainable by %s: first unexplained event #%d %s" % (
+                    module, info2["at"] - 1, json.dumps(info2["event"])[:300]), dict(history=bad, rejected_at=info2))
+            else:
+                rep.infra_error("%s: rejection did not reproduce on the single history" % label)
+            rest = part[:hi] + part[hi + 1:]
+            if rest and reported < cap:
+                work.append((rest, trace.validate(comp, module, cfg, rest, timeout)))
